@@ -1054,6 +1054,7 @@ pub async fn quiesce_and_check(world: &mut NetWorld, s: &Value, rec: &mut Record
             // distinct root-cause class
             let mut dup_kinds: BTreeSet<String> = BTreeSet::new();
             let mut reordered_kinds: BTreeSet<String> = BTreeSet::new();
+            let mut same_index_kinds: BTreeSet<String> = BTreeSet::new();
             {
                 let mut all: Vec<LogSet> = vec![];
                 if let Ok(l) = server_logs(world).await {
@@ -1069,6 +1070,20 @@ pub async fn quiesce_and_check(world: &mut NetWorld, s: &Value, rec: &mut Record
                         let mut seen = BTreeSet::new();
                         if v.iter().any(|r| !seen.insert(r.commit)) {
                             dup_kinds.insert(log_kind(k).to_string());
+                        }
+                    }
+                }
+                // two replicas diverge and later hold the same event at the same index
+                for x in 0..all.len() {
+                    for y in (x + 1)..all.len() {
+                        for (k, a) in &all[x] {
+                            if let Some(b) = all[y].get(k) {
+                                let lcp = a.iter().zip(b.iter()).take_while(|(p, q)| p.commit == q.commit).count();
+                                let n = a.len().min(b.len());
+                                if lcp < n && (lcp..n).any(|i| a[i].commit == b[i].commit) {
+                                    same_index_kinds.insert(log_kind(k).to_string());
+                                }
+                            }
                         }
                     }
                 }
@@ -1114,6 +1129,8 @@ pub async fn quiesce_and_check(world: &mut NetWorld, s: &Value, rec: &mut Record
                     class.push_str("/log_holds_identical_events");
                 } else if reordered_kinds.contains(kind) {
                     class.push_str("/same_events_different_order");
+                } else if same_index_kinds.contains(kind) {
+                    class.push_str("/identical_event_at_same_index_after_divergence");
                 }
                 if world.devices.iter().any(|d| d.own.rewritten) {
                     class.push_str("/after_history_rewrite");
